@@ -132,7 +132,7 @@ Emit ==
                        box |-> [maxq |-> MaxQ, maxk |-> MaxK, margin |-> Margin],
                        acc |-> AccBlock(v, ps[1])]))
   /\ (stage = "block" /\ Mode \in {"acc", "nbr"}) =>
-        \A c \in NeedsOf(v, ps[1]) : PrintT(ToJson([kind |-> "need", u |-> c.u, m |-> c.m, st |-> c.st]))
+        \A c \in NeedsOf(v, ps[1]) : \A u \in Continuations(c.u, c.m, 3) : PrintT(ToJson([kind |-> "need", u |-> u, m |-> c.m, st |-> c.st]))
   /\ (stage = "block" /\ Mode = "needs") =>
         \A c \in NeedsOf(v, ps[1]) : \A u \in Continuations(c.u, c.m, 2) : PrintT(ToJson([kind |-> "need", u |-> u, m |-> c.m, st |-> c.st]))
   /\ (stage = "block" /\ Mode = "elem" /\ ps[1] >= 1) =>
